@@ -281,6 +281,21 @@ pub const CATALOGUE: &[Fault] = &[
     f("type-mismatch-x:assign-in-parens", "ZQ% = (ZFn%(1, \"b\"))", &[], ATM, S | H),
     f("argt-builtin-sub:locate-nested", "LOCATE LEN(5), 1", &[], ATM, S),
     f("argt-builtin-sub:color-nested", "COLOR 1 + VAL(5)", &[], ATM, S),
+    // ---- constant expressions with an operand of the wrong kind (the checker evaluates them itself)
+    f("type-mismatch-x:const-mod-left", "CONST ZC = \"a\" MOD 2", &[], TM, 0),
+    f("type-mismatch-x:const-mod-right", "CONST ZC = 2 MOD \"b\"", &[], TM, 0),
+    f("type-mismatch-x:const-and", "CONST ZC = \"a\" AND 1", &[], TM, 0),
+    f("type-mismatch-x:const-or", "CONST ZC = 1 OR \"b\"", &[], TM, 0),
+    f("type-mismatch-x:const-not", "CONST ZC = NOT \"a\"", &[], TM, 0),
+    f("type-mismatch-x:const-negate", "CONST ZC = -\"a\"", &[], TM, 0),
+    f("type-mismatch-x:const-times", "CONST ZC = \"a\" * 2", &[], TM, 0),
+    f("type-mismatch-x:const-divide", "CONST ZC = \"a\" / \"b\"", &[], TM, 0),
+    f("type-mismatch-x:const-compare", "CONST ZC = \"a\" < 1", &[], TM, 0),
+    f("type-mismatch-x:const-nested", "CONST ZC = 1 + (2 MOD \"b\")", &[], TM, 0),
+    // ---- by-reference arguments of another type that are not plain variables
+    f("argt-user-sub:byref-array-element", "ZSb ZM&(1), 1", &["DIM ZM&(3)"], ATM, S | H),
+    f("argt-user-fn:byref-array-element", "ZQ% = ZFn%(1, ZM#(2))", &["DIM ZM#(3)"], ATM, S | H),
+    f("argt-user-sub:byref-record-field", "ZSb 1, ZR.ZS", DIM_ZR, ATM, S | H | T),
     // ---- syntax: string literal without closing quote
     f("syntax-string:print", "PRINT \"abc", &[], P, S | TAIL),
     f("syntax-string:assign", "ZQ$ = \"abc", &[], P, S | TAIL),
